@@ -652,3 +652,32 @@ func H_ClosePositions_StopLoss() {
 	}
 	s.check("close-positions(stop-loss)", 1)
 }
+
+// ---- the tier module's portfolio valuation is read-only ----
+
+// The tier hooks run inside other modules' transactions (after a bond, an unbond, a join, an open ...) and value the
+// user's holdings. The ledger harnesses leave them out under the frame contract "tier writes the tier store only";
+// here the valuation functions themselves run on a state with a leveraged-LP position (vault debt included) and must
+// not write anything: no interest is booked, no debt record or vault total changes while a portfolio is valued.
+//
+//vrf:cover valued
+//vrf:bound 1 leveraged-LP position of the user with a symbolic vault debt last accrued 10 blocks / 60 s ago; the tier keeper's leverage-LP, pool, liquid-asset and tradeshield valuations
+//vrf:max-paths 3000
+func H_Tier_PortfolioValuation_ReadOnly() {
+	s := setup(true)
+	env, ctx := s.env, s.env.Ctx
+	// the position's debt was last accrued some time ago: there is pending interest to book for whoever "updates" it
+	d := env.Stable.GetDebt(ctx, levtypes.GetPositionAddress(1))
+	d.LastInterestCalcTime, d.LastInterestCalcBlock = now-60, 90
+	env.Stable.SetDebt(ctx, d)
+	tv := env.Stable.GetParams(ctx).TotalValue
+	before := env.W.TotalWrites()
+	env.Tier.RetrieveLeverageLpTotal(ctx, owner)
+	vrf.Assert(env.W.TotalWrites() == before, "C07/C06: valuing a user's leveraged-LP positions for the tier portfolio writes nothing (no interest is booked on the side)")
+	vrf.Assert(env.Stable.GetParams(ctx).TotalValue.Equal(tv), "C07/C06: the vault's TotalValue is untouched by a portfolio valuation")
+	env.Tier.RetrievePoolTotal(ctx, owner)
+	env.Tier.RetrieveLiquidAssetsTotal(ctx, owner)
+	env.Tier.RetrieveTradeshieldTotal(ctx, owner)
+	vrf.Cover("valued")
+	vrf.Assert(env.W.TotalWrites() == before, "C07/C06: the tier module's portfolio valuation functions are read-only")
+}
